@@ -5,8 +5,9 @@ Require Import Wbxml.Model.TablesDefs.
 Require Import Wbxml.Model.Codec.
 Require Import Wbxml.Gen.TablesData.
 Require Import Wbxml.Model.EncXml.
+Require Import Wbxml.Model.XmlRead.
 Require Import List.
 Require Extraction.
 Require Import ExtrOcamlBasic.
 Definition xmain_table : list xlang := Eval vm_compute in map xlang_of main_table.
-Extraction "model.ml" xmain_table enc_xml.
+Extraction "model.ml" xmain_table enc_xml read_xml_auto unescape escape.
